@@ -1,6 +1,6 @@
 """C14 — configuration of the check (deductive tier under construction)."""
 PROPERTY = "C14"
-LEVEL = "other"
+LEVEL = "exploration"
 CONTRACT_MODULES = ["contracts.specfuns"]
 FUNCTIONS = []
 LEMMAS = []
